@@ -3,7 +3,10 @@ package listops
 import (
 	"encoding/json"
 	"fmt"
+	"strings"
 	"time"
+
+	astisub "github.com/asticode/go-astisub"
 
 	"verif/core"
 	"verif/props/lm"
@@ -50,6 +53,13 @@ func checkForce(l lm.List, d int64, filler bool) (lm.List, string, string) {
 }
 
 func c14Run(c *core.Ctx) {
+	if c.Shard == 0 {
+		key, msg := fillerFresh()
+		c.Record("filler-fresh", core.Hash64(key), core.Hash64("filler-fresh"), nil)
+		if key != "" {
+			c.Violate("force", key, msg, opCase{Op: "forceduration-filler-fresh"}, 1)
+		}
+	}
 	maxN := 3
 	units := []int64{ms, sec}
 	if c.Tier == core.Thorough {
@@ -98,10 +108,48 @@ func c14Run(c *core.Ctx) {
 	}
 }
 
+// fillerFresh: every filler is a cue of its own - editing the one appended to a list (text, lines, style) must
+// not show in the filler a later call appends to another list.
+func fillerFresh() (string, string) {
+	mk := func() *astisub.Subtitles {
+		s := astisub.NewSubtitles()
+		s.Items = append(s.Items, &astisub.Item{StartAt: time.Second, EndAt: 2 * time.Second, Lines: []astisub.Line{{Items: []astisub.LineItem{{Text: "x"}}}}})
+		return s
+	}
+	a := mk()
+	a.ForceDuration(5*time.Second, true)
+	if len(a.Items) != 2 {
+		return "", ""
+	}
+	fa := a.Items[1]
+	before := lm.ItemText(fa)
+	for li := range fa.Lines {
+		fa.Lines[li].VoiceName = "edited"
+		for ri := range fa.Lines[li].Items {
+			fa.Lines[li].Items[ri].Text = "edited by the caller"
+			fa.Lines[li].Items[ri].InlineStyle = &astisub.StyleAttributes{SRTBold: true}
+		}
+	}
+	fa.Lines = append(fa.Lines, astisub.Line{Items: []astisub.LineItem{{Text: "added"}}})
+	b := mk()
+	b.ForceDuration(7*time.Second, true)
+	if len(b.Items) != 2 {
+		return "", ""
+	}
+	if got := lm.ContentSnap(b.Items[1]); lm.ItemText(b.Items[1]) != before || strings.Contains(got, "edited") {
+		return "force.filler-shares-memory", fmt.Sprintf("a caller edited the filler cue appended to one list; the filler appended to another list afterwards reads %q instead of %q", lm.ItemText(b.Items[1]), before)
+	}
+	return "", ""
+}
+
 func c14Replay(sub string, raw json.RawMessage) (string, bool) {
 	var oc opCase
 	if err := json.Unmarshal(raw, &oc); err != nil {
 		return err.Error(), false
+	}
+	if oc.Op == "forceduration-filler-fresh" {
+		key, msg := fillerFresh()
+		return msg, key != ""
 	}
 	_, key, msg := checkForce(oc.List, oc.P[0], oc.Flag)
 	return msg, key != ""
@@ -110,7 +158,7 @@ func c14Replay(sub string, raw json.RawMessage) (string, bool) {
 func init() {
 	core.Register(&core.Prop{
 		ID: "C14", Level: "model_checking",
-		Rule: "states = canonical well-formed timelines (ordered by start, non-decreasing ends); transitions = the real ForceDuration(d, filler) on a fresh real list compared with the property sentence written as a list comprehension (removed / shortened / untouched cues, filler [d-1ms,d) only when requested and needed, identical list when it already lasts d); non-trivial = the list changed",
+		Rule: "states = canonical well-formed timelines (ordered by start, non-decreasing ends); transitions = the real ForceDuration(d, filler) on a fresh real list compared with the property sentence written as a list comprehension (removed / shortened / untouched cues, filler [d-1ms,d) only when requested and needed, identical list when it already lasts d); plus: a filler edited by the caller does not show in the filler of a later call; non-trivial = the list changed",
 		Scope: map[core.Tier]string{
 			core.Quick:    "all timelines of <=3 cues on 0..5 (gaps, abutting, overlapping, zero-length; two texts) x d in 1..7 grid steps (before the first cue, inside, in a gap, on a boundary, beyond) and d+-1ms, d+-1ns, d+0.5ms x filler in {false,true} x units {1ms,1s}",
 			core.Thorough: "<=4 cues, units {1ms,1s,1h+1ms}",
